@@ -25,7 +25,7 @@ ASSUMPTIONS = ["sampler classes are identified by their class name, as the libra
 REQUIRED_COUNTERS = {"tables_checked": 80, "rows_attributed": 150, "helper_calls": 40, "restores": 40, "dropped_class_checkpoints": 10,
                      "user_defined_classes": 5, "set_scheduler_ops": 5, "old_format_fixture": 1}
 SHARDS = {"quick": 16, "thorough": 16}
-SHARD_WATCHDOG = {"quick": 900, "thorough": 5400}
+SHARD_WATCHDOG = {"quick": 1500, "thorough": 10800}
 
 
 def gen_cases(tier, seed):
